@@ -98,7 +98,7 @@ var fmStats struct{ calls, gaveUp int }
 // axiomsFor returns the defining constraints (as >=0 forms) of derived symbols.
 func axiomsFor(s *Sym) []Aff {
 	if s.arg == nil {
-		return nil
+		return s.axioms
 	}
 	x := affSym(s)
 	switch s.kind {
@@ -273,7 +273,126 @@ func infeasibleNoNE(c Conj) bool {
 			}
 		}
 	}
+	// integer bound propagation: FM over the rationals loses facts that need rounding of an
+	// intermediate single-variable bound (e.g. 65536*d >= -65535 gives d >= 0)
+	cons, bad := propagateBounds(cons)
+	if bad {
+		return true
+	}
 	return fmEliminate(cons)
+}
+
+func ceilDiv(a, b int64) int64 { // b > 0
+	return -floorDiv(-a, b)
+}
+
+// propagateBounds derives per-variable integer bounds from the constraints (each Σk·x+c>=0)
+// by interval propagation, returns the constraints plus the derived bounds, or bad=true if
+// some variable's interval became empty.
+func propagateBounds(cons []linc) ([]linc, bool) {
+	const inf = int64(1) << 60
+	lo := map[*Sym]int64{}
+	hi := map[*Sym]int64{}
+	for _, l := range cons {
+		for s := range l.k {
+			if _, ok := lo[s]; !ok {
+				lo[s], hi[s] = -inf, inf
+			}
+		}
+	}
+	sat := func(k, v int64) int64 {
+		if v >= inf/2 || v <= -inf/2 {
+			if (k > 0) == (v > 0) {
+				return inf
+			}
+			return -inf
+		}
+		if v == 0 || k == 0 {
+			return 0
+		}
+		r := k * v
+		if r/v != k {
+			if (k > 0) == (v > 0) {
+				return inf
+			}
+			return -inf
+		}
+		if r > inf {
+			return inf
+		}
+		if r < -inf {
+			return -inf
+		}
+		return r
+	}
+	for round := 0; round < 12; round++ {
+		changed := false
+		for _, l := range cons {
+			if len(l.k) > 8 {
+				continue
+			}
+			for x, kx := range l.k {
+				// kx*x >= -(c + Σ_{others} max(k*y))
+				restMax := l.c
+				unb := false
+				for y, ky := range l.k {
+					if y == x {
+						continue
+					}
+					var m int64
+					if ky > 0 {
+						if hi[y] >= inf/2 {
+							unb = true
+							break
+						}
+						m = sat(ky, hi[y])
+					} else {
+						if lo[y] <= -inf/2 {
+							unb = true
+							break
+						}
+						m = sat(ky, lo[y])
+					}
+					if m >= inf/2 {
+						unb = true
+						break
+					}
+					restMax += m
+				}
+				if unb {
+					continue
+				}
+				if kx > 0 {
+					nb := ceilDiv(-restMax, kx)
+					if nb > lo[x] {
+						lo[x] = nb
+						changed = true
+					}
+				} else {
+					nb := floorDiv(restMax, -kx)
+					if nb < hi[x] {
+						hi[x] = nb
+						changed = true
+					}
+				}
+				if lo[x] > hi[x] {
+					return nil, true
+				}
+			}
+		}
+		if !changed {
+			break
+		}
+	}
+	for s := range lo {
+		if lo[s] > -inf/2 {
+			cons = append(cons, linc{c: -lo[s], k: map[*Sym]int64{s: 1}})
+		}
+		if hi[s] < inf/2 {
+			cons = append(cons, linc{c: hi[s], k: map[*Sym]int64{s: -1}})
+		}
+	}
+	return cons, false
 }
 
 func fmEliminate(cons []linc) bool {
